@@ -352,12 +352,12 @@ struct cfg {
 enum {
   OP_SEND, OP_NOTIFY, OP_SESSION, OP_RESOURCE, OP_CACHE, OP_REF, OP_SEND_DEAD, OP_ASYNC_TRIGGER, OP_NEWPEER,
   OP_NOPS, /* menu of the "c13:" family ends here; the following ops are used by "c13x:" scenarios only */
-  OP_SLEEP = OP_NOPS, OP_RAW_PING, OP_SEND_PING, OP_CACHE_APP, OP_RESOURCE_UD, OP_SEND_LARGE, OP_OBSERVE, OP_DEREGISTER,
+  OP_SLEEP = OP_NOPS, OP_RAW_PING, OP_SEND_PING, OP_CACHE_APP, OP_RESOURCE_UD, OP_SEND_LARGE, OP_OBSERVE, OP_DEREGISTER, OP_NEWCTX_FAIL,
   OP_ALL
 };
 static coap_session_t *extra_sess[MAXT];
 static const char *op_names[] = {"send", "notify", "session", "resource", "cache", "ref", "send-dead", "async-trigger", "new-peer",
-                                 "sleep", "raw-ping", "send-ping", "cache-app", "resource-ud", "send-large", "observe", "deregister"};
+                                 "sleep", "raw-ping", "send-ping", "cache-app", "resource-ud", "send-large", "observe", "deregister", "new-context-bind-fails"};
 
 static struct cfg *C;
 static coap_context_t *ctx;
@@ -724,6 +724,17 @@ do_op(int op, int w) {
   case OP_ASYNC_TRIGGER:
     do_send(cs, 1, "q", "a", (uint8_t)(0x30 + w));
     break;
+  case OP_NEWCTX_FAIL: {
+    /* an API call that fails half way (the listen address is in use): it must leave the global lock free */
+    coap_address_t la;
+    ns_addr(&la, 1, 5683);
+    ns_bind_fail_next = 1;
+    coap_context_t *c2 = coap_new_context(&la);
+    ns_bind_fail_next = 0;
+    if (c2)
+      coap_free_context(c2);
+    break;
+  }
   case OP_NEWPEER: {
     /* a request from a new local address: the I/O thread will raise SERVER_SESSION_NEW (an event callback that runs with
      * the global lock held) while the API threads are still active */
@@ -1177,6 +1188,8 @@ main(int argc, char **argv) {
     add(3, OP_RESOURCE, -1, OP_CACHE, -1, OP_ASYNC_TRIGGER, -1, 2);
     add(3, OP_NOTIFY, OP_SEND, OP_REF, -1, OP_SEND, -1, 2);
   }
+  /* an API call that fails half way must not keep the global lock */
+  add(2, OP_NEWCTX_FAIL, OP_REF, OP_SEND, -1, -1, -1, T_ ? 2 : 1);
   /* "c13x:" family: the other call-outs, with their own preemption bound */
   int BX = T_ ? 2 : 1;
   add_flags = F_CBX;
